@@ -34,6 +34,10 @@ META = {
                 text="transcript comparison: the notifications drained after every step of exhaustive depth-4/5 sequences and rapid histories are compared (multiset, offline-before-online order, content) with the transcript the statement prescribes, computed by the reference model",
                 note="a re-bound address may or may not be reported offline for its previous holder (statement silent: lenient); one history shape is a listed known finding and is excluded from the random generator by construction while a dedicated sub-check keeps exercising it",
                 tech="model-based stateful property testing (rapid) with a notification-ledger oracle + bounded-exhaustive sequence enumeration"),
+    "C09": dict(level="exploration",
+                text="randomized multi-core stress under the race detector: rapid draws scenarios (a packet loop over 10-60 generated protocol frames on a reused buffer, a purge goroutine with advancing time, 1-6 API actors with 5-40 calls from the statement's list plus the handlers' own query calls, a notification consumer, 1 in 4 with a concurrent Close; drawn pauses and GOMAXPROCS 1-16 perturb the schedule); each scenario runs 3 rounds on fresh sessions in a child process of the harness built with -race; oracles: every race-detector report (named by the innermost non-helper library functions of its two accesses), runtime faults of the child (concurrent map access), recovered panics, a 30 s join time-out with goroutine dump (deadlock), the C05 table invariants once everything has joined, and no library goroutine left 10 s after Close",
+                note="schedules are sampled, not enumerated (Go's scheduler cannot be driven from outside); a race is only reported when the detector observes both accesses in one run, so a violation confined to a narrow window may need the thorough tier; evidence differs between runs of one seed; replay re-runs the scenario but cannot force the interleaving",
+                tech="property-based stress testing (rapid-generated concurrent scenarios) with schedule perturbation under the Go race detector, one child process per scenario"),
     "C13": dict(level="exploration",
                 text="(a) synchronous model: StartHunt / StopHunt / DHCP-offer / received-ARP histories (requests, probes, announcements, replies with sender-IP and Ethernet-source variants, private off-LAN probe targets) against a model of the hunt list; after every step the frames on the connection are decoded by the reference ARP decoder and each forged frame (sender IP = router, sender MAC = host) must be explained by the model, each probe for an offered address must be rejected; (b) real time: batches of 12-24 concurrent scenarios with calls at drawn offsets within 8 s, observed for 17 s on timestamped connections: every forged frame falls into a hunt interval of its target (+1 s), every completed StopHunt is followed by a restoring ARP within one cycle, nothing after Close",
                 note="real-time attribution uses 1 s slack and one 6 s cycle + 2 s for the restore; the restore is not required when the handler was closed or the target re-hunted meanwhile; the loop's restoring ARP to ever-hunted MACs is allowed; the 4 s..6 s spoof period is real time so thorough depth is bounded by wall clock",
